@@ -1,7 +1,7 @@
 (* Proofs about Model/CPSearch.v: the trail walk of the cutting-planes strategy
    (solver/learn_pb.go, cuttingPlanes), property C14.
 
-   THE CURRENT CODE (after commit 2aa45b5; cp_loop, cutting_planes):
+   THE CURRENT CODE (commit 0a73d0f; cp_loop, cp_finish, cutting_planes):
    - cp_sound: the learned constraint, or the units, are consequences of the
      problem, and an Unsat answer means that the problem has no model;
    - cp_total: one call terminates within the fuel, without panic, and returns
@@ -43,12 +43,15 @@
    "lvl = abs(s.model[v])" after the walk instead of counting nil reasons (D3),
    and "if reason == nil { continue }" without lvl-- (D1).
 
-   NOT COVERED (caller level, solver.go:474-490, still present): when
-   SimplifyPB yields units, cuttingPlanes returns (nil, units, 1) and the
-   residual learned constraint is dropped; the caller re-pushes a unit that is
-   already true at level 1 (duplicates on the trail) and the search can repeat
-   the same two conflicts for ever (1 random problem in 400 000).  The theorems
-   here are about ONE call of cuttingPlanes. *)
+   REPAIRED BY 0a73d0f (caller level): before it, when SimplifyPB yielded units,
+   cuttingPlanes returned (nil, units, 1) even when every unit was already a
+   level-1 fact, the residual learned constraint was dropped, the caller pushed
+   the unit again, and the search could repeat the same conflicts for ever.  Now
+   the whole (asserting) constraint is learned in that case (cp_finish; the
+   earlier end of the function is cp_finish_v1) and the caller skips units that
+   are already facts.  The whole-run statements, including the progress
+   property and the old cycle, are in Properties/C14c.v.  The theorems here are
+   about ONE call of cuttingPlanes. *)
 From Coq Require Import List ZArith Lia Bool ZifyBool Permutation.
 From GS Require Import Spec.Base Spec.PB Model.PBNorm Model.CP Model.CPSearch.
 From GS Require Proofs.PBNorm.
@@ -419,10 +422,10 @@ Definition res_sound2 (r : result) : Prop :=
 Lemma res_sound2_weaken : forall r, res_sound2 r -> res_sound r.
 Proof. intros [| | | |us|c props l] H; try exact I; exact H. Qed.
 
-Lemma finish_sound2 : forall pb md u,
-  derivable n P pb -> conflicting md pb = true -> res_sound2 (cp_finish pb md u).
+Lemma finish_v1_sound2 : forall pb md u,
+  derivable n P pb -> conflicting md pb = true -> res_sound2 (cp_finish_v1 pb md u).
 Proof.
-  intros pb md u HD HC. unfold cp_finish.
+  intros pb md u HD HC. unfold cp_finish_v1.
   destruct (round_to_one md (vidx u) pb) as [pb'|] eqn:Er; [|exact I].
   destruct (round_conflicting _ _ _ _ Er HC) as [_ Hok].
   assert (HD' : derivable n P pb') by (eapply D_round; eassumption).
@@ -446,16 +449,45 @@ Proof.
     specialize (HsC m Em). rewrite Hs in HsC. discriminate.
 Qed.
 
-Lemma finish_sound : forall pb md u,
-  derivable n P pb -> conflicting md pb = true -> res_sound (cp_finish pb md u).
-Proof. intros pb md u HD HC. apply res_sound2_weaken. apply finish_sound2; assumption. Qed.
+Lemma finish_v1_sound : forall pb md u,
+  derivable n P pb -> conflicting md pb = true -> res_sound (cp_finish_v1 pb md u).
+Proof. intros pb md u HD HC. apply res_sound2_weaken. apply finish_v1_sound2; assumption. Qed.
+
+Lemma finish_sound2 : forall pb md u,
+  derivable n P pb -> conflicting md pb = true -> res_sound2 (cp_finish pb md u).
+Proof.
+  intros pb md u HD HC. unfold cp_finish.
+  destruct (round_to_one md (vidx u) pb) as [pb'|] eqn:Er; [|exact I].
+  destruct (round_conflicting _ _ _ _ Er HC) as [_ Hok].
+  assert (HD' : derivable n P pb') by (eapply D_round; eassumption).
+  destruct (snd pb' <? 1); [exact I|]. cbv zeta.
+  set (C := PBC (sort_terms (set_terms 1 (fst pb'))) (snd pb')).
+  assert (HnC : nonneg_terms (terms C) = true).
+  { unfold C. cbn [terms].
+    rewrite (Proofs.PBNorm.nonneg_terms_perm _ _ (Proofs.PBNorm.sort_terms_perm _)).
+    apply set_terms_nonneg. }
+  assert (HsC : forall m : model, sat_problem m P = true -> sat_pbc m C = true).
+  { intros m Hm. unfold C. rewrite Proofs.PBNorm.sort_terms_sat.
+    exact (derivable_sound n P pb' HD' m Hm). }
+  pose proof (Proofs.PBNorm.simplify_pb_sound C HnC) as Hs.
+  destruct (simplify_pb C) as [[us rest]|].
+  - destruct (forallb (is_fact md) us).
+    + destruct us as [|u0 us].
+      * destruct rest as [c|]; [|exact I]. cbn [res_sound2]. intros m Hm.
+        specialize (HsC m Hm). rewrite Hs in HsC. cbn [forallb andb] in HsC. exact HsC.
+      * cbn [res_sound2]. exact HsC.
+    + cbn [res_sound2]. intros m Hm. specialize (HsC m Hm). rewrite Hs in HsC.
+      apply andb_true_iff in HsC. exact (proj1 HsC).
+  - cbn [res_sound2]. intros m. destruct (sat_problem m P) eqn:Em; [|reflexivity].
+    specialize (HsC m Em). rewrite Hs in HsC. discriminate.
+Qed.
 
 Lemma loop_old_sound : forall fuel pb md rt lvl,
   Inv pb md rt -> res_sound (fst (cp_loop_old fuel n rs pb md rt lvl)).
 Proof.
   induction fuel as [|f IH]; intros pb md rt lvl HI; cbn [cp_loop_old]; [exact I|].
   destruct (only_falsified pb md lvl rt None) as [u|].
-  - cbn [fst]. destruct HI as [HD [_ [HC _]]]. apply finish_sound; assumption.
+  - cbn [fst]. destruct HI as [HD [_ [HC _]]]. apply finish_v1_sound; assumption.
   - destruct (lvl =? 1); [exact I|].
     destruct (walk_old pb rs md lvl rt) as [|md' l r lvl'] eqn:Ew; [exact I|].
     destruct (walk_old_inv _ _ _ _ _ _ _ _ HI Ew) as [[HD [HL [HC HR]]] Hf].
@@ -702,7 +734,8 @@ Proof.
   destruct (Z.ltb_spec (snd pb') 1) as [L|L]; [lia|].
   set (C := PBC (sort_terms (set_terms 1 (fst pb'))) (snd pb')).
   pose proof (finish_no_nil C L) as Hnn.
-  destruct (simplify_pb C) as [[us rest]|]; [|exact I].
+  cbv zeta. fold C. destruct (simplify_pb C) as [[us rest]|]; [|exact I].
+  destruct (forallb (is_fact md) us); [|exact I].
   destruct us as [|u0 us]; [|exact I].
   destruct rest as [c|]; [exact I|]. exfalso. apply Hnn. reflexivity.
 Qed.
@@ -1288,7 +1321,7 @@ Definition st_div : state :=
 Lemma cp_loop_old_unfold : forall f n rs pb md rt lvl,
   cp_loop_old (S f) n rs pb md rt lvl =
   match only_falsified pb md lvl rt None with
-  | Some u => (cp_finish pb md u, md)
+  | Some u => (cp_finish_v1 pb md u, md)
   | None =>
     if lvl =? 1 then (CPUnsat, md)
     else
@@ -1412,4 +1445,36 @@ Proof.
   split; [vm_compute; reflexivity|]. split; [vm_compute; reflexivity|].
   split; [vm_compute; reflexivity|]. split; [eexists; eexists; vm_compute; reflexivity|].
   split; [vm_compute; reflexivity|]. eexists; eexists; vm_compute; reflexivity.
+Qed.
+
+(* Go output at commit 0a73d0f on the input
+     2 x6 +2 x4 +2 x5 +1 ~x3 +2 ~x1 >= 7 ;  x7 + ~x5 + x1 + x2 + ~x6 + x3 + x4 >= 4
+   (on which the search did not terminate before that commit: Properties/C14c.v):
+   CALL 1 lvl=4 confl = 2nd constraint, trail=-1@2 -7@3 -6@4 4@4 5@4 -3@4 (4 5 -3 by the 1st)
+     -> learned=nil propagated=[x4] newLvl=1          (a new fact)
+   CALL 2 lvl=4 confl = 2nd constraint, trail=4@1 -3@2 -7@3 -6@4 5@4 -1@4 (5 -1 by the 1st)
+     -> learned=2 x4 +1 x2 +1 x3 +1 x7 >= 4 propagated=[x7] newLvl=2
+        (SimplifyPB yields the unit x4, which is already a fact: the WHOLE constraint
+         is learned; before 0a73d0f the answer was (nil, [x4], 1))
+   status=SAT, model [false true false true true false true] *)
+Definition go_A : pbc := PBC [(2, 6); (2, 4); (2, 5); (2, -1); (1, -3)] 7.
+Definition go_B : pbc := PBC [(1, 7); (1, -5); (1, 1); (1, 2); (1, -6); (1, 3); (1, 4)] 4.
+Definition go_st4 : state :=
+  State [-1; -7; -6; 4; 5; -3] [-2; 0; -4; 4; 4; -4; -3]
+        [None; None; Some go_A; Some go_A; Some go_A; None; None] go_B 4.
+Definition go_st5 : state :=
+  State [4; -3; -7; -6; 5; -1] [-4; 0; -2; 1; 4; -4; -3]
+        [Some go_A; None; None; None; Some go_A; None; None] go_B 4.
+
+Lemma go_outputs2 :
+  state_wf3b go_st4 = true /\ cutting_planes go_st4 = CPUnits [4] /\
+  state_wf3b go_st5 = true /\
+  cutting_planes go_st5 = CPLearn (PBC [(2, 4); (1, 2); (1, 3); (1, 7)] 4) [7] 2 /\
+  (exists md rs, caller go_st5 = KLearn [4; -3; 7] md rs (PBC [(2, 4); (1, 2); (1, 3); (1, 7)] 4) 2) /\
+  (* before 0a73d0f: the unit that is already a fact *)
+  fst (cutting_planes_mid_full go_st5) = CPUnits [4].
+Proof.
+  split; [vm_compute; reflexivity|]. split; [vm_compute; reflexivity|].
+  split; [vm_compute; reflexivity|]. split; [vm_compute; reflexivity|].
+  split; [eexists; eexists; vm_compute; reflexivity|vm_compute; reflexivity].
 Qed.
